@@ -89,6 +89,9 @@ type Property struct {
 	ID  string
 	Gen func(rt *rapid.T) Scenario
 	New func() Scenario // empty value for decoding a replay file
+	// Explicit, if set, enumerates explicitly constructed scenarios (a finite grid) that are executed
+	// before the seeded search; worker w of n takes every n-th one. It returns a description.
+	Explicit func(tier string, yield func(Scenario)) string
 }
 
 // ---------------------------------------------------------------------------
@@ -469,6 +472,27 @@ func RunProperty(t *testing.T, p *Property) {
 			r.last = f
 			rt.Fatalf("violation: %s: %s", unknown[0].Kind, unknown[0].Msg)
 		}
+	}
+	if p.Explicit != nil {
+		w, n := int(envInt("VERIF_WORKER", 0)), int(envInt("VERIF_WORKERS", 1))
+		i, count := 0, 0
+		what := p.Explicit(os.Getenv("VERIF_TIER"), func(sc Scenario) {
+			i++
+			if (i-1)%n != w || r.last != nil {
+				return
+			}
+			out := sc.Execute(t)
+			if out.HarnessErr != "" {
+				harnessFail(p.ID, sc, out.HarnessErr)
+			}
+			count++
+			if unknown := r.account(sc, out); len(unknown) > 0 {
+				out.Violations = unknown
+				EmitViolation(p, sc, out)
+			}
+		})
+		NoteExhaustive(p.ID, what, count)
+		r.stats.Evaluations -= count // reported separately as exhaustively enumerated cases
 	}
 	// The search runs in chunks, each an independent rapid.Check with its own derived
 	// seed, so that a wall-clock cap can stop between chunks without touching rapid.
